@@ -27,8 +27,8 @@
    under that name -- so every candidate location is an existing regular file with that basename,
    and the `size` kept in the filemap is the length of the bytes it holds (no concurrent writer). *)
 From Coq Require Import List String Ascii Bool Arith.
-From TF Require Import Lib.Base Model.CopyPath Model.Rebuild.
-From TF Require Model.PathSafe Model.RebuildMeta.
+From TF Require Import Lib.Base Lib.Chunks Model.CopyPath Model.Rebuild.
+From TF Require Model.PathSafe Model.Bencode Model.RebuildMeta.
 Import ListNotations.
 Open Scope list_scope.
 
@@ -184,3 +184,57 @@ Fixpoint assemble_run (dsize : nat) (H1 H256 : bytes -> bytes) (B : nat) (fm : f
 Definition assemble_fs (dsize : nat) (H1 H256 : bytes -> bytes) (B : nat) (fm : filemap)
            (dest : path) (jobs : list job) (f : fs) : fs :=
   fs_of (assemble_run dsize H1 H256 B fm dest jobs f).
+
+(* ------------------------------------------------------------------------------------------ *)
+(* Metadata(path).rebuild(filemap, dest), from the decoded metafile                            *)
+(* ------------------------------------------------------------------------------------------ *)
+
+(* info["piece length"] as the loops use it.  None = outside the model: not an int (HasherV2 /
+   `target = self.piece_length` then fail or misbehave in ways that are not followed here), or an
+   int <= 0 (no piece ever gets a path node; nothing is copied). *)
+Definition pl_of (v : Bencode.value) : option nat :=
+  match v with
+  | Bencode.BInt z => if (0 <? z)%Z then Some (Z.to_nat z) else None
+  | _ => None
+  end.
+
+(* entry["length"] as _map_pieces uses it (negative lengths are outside the model) *)
+Definition len_of (z : Z) : option nat := if (0 <=? z)%Z then Some (Z.to_nat z) else None.
+
+(* self.files[k] as the v1 route reads it: filename, full (the "/"-joined text), length *)
+Fixpoint v1_files_of_entries (es : list RebuildMeta.entry) : option (list v1_file) :=
+  match es with
+  | [] => Some []
+  | e :: rest =>
+      match len_of (RebuildMeta.e_length e), v1_files_of_entries rest with
+      | Some n, Some r =>
+          Some (mk_v1_file (RebuildMeta.text (RebuildMeta.e_filename e)) (RebuildMeta.full_text e) n :: r)
+      | _, _ => None
+      end
+  end.
+
+(* total_pieces = len(self.pieces) // SHA1; piece i is self.pieces[20*i : 20*i+20] *)
+Definition digests_of (pieces : bytes) : list bytes := firstn (length pieces / 20) (chunks 20 pieces).
+
+(* Metadata(path) then .rebuild(filemap, dest): None = no Metadata object comes into being
+   (RebuildMeta.metadata_init) or the metafile is outside the model (see pl_of, len_of; `pieces`
+   that is not a byte string); otherwise the dispatch of Metadata.rebuild on meta_version == 2:
+   _match_v2 over self.files, or _map_pieces + _match_v1 *)
+Definition rebuild_of_metafile (H1 H256 : bytes -> bytes) (B dsize : nat) (dest : path) (fm : filemap)
+           (meta : Bencode.value) (f : fs) : option result :=
+  match RebuildMeta.metadata_init meta with
+  | None => None
+  | Some x =>
+      match pl_of (RebuildMeta.x_piece_length x) with
+      | None => None
+      | Some pl =>
+          if RebuildMeta.x_is_v2 x
+          then Some (rebuild_v2_run dsize H256 B pl fm dest (RebuildMeta.x_files x) f)
+          else
+            match RebuildMeta.x_pieces x, v1_files_of_entries (RebuildMeta.x_files x) with
+            | Bencode.BStr s, Some files =>
+                Some (rebuild_v1_run dsize H1 fm dest (v1_nodes pl files (digests_of s)) f)
+            | _, _ => None
+            end
+      end
+  end.
